@@ -5,7 +5,7 @@ from __future__ import annotations
 import ast
 
 from vlib.cfg import CFG
-from vlib.core import AnalysisError, Repo, Report, norm, own_nodes
+from vlib.core import AnalysisError, Repo, Report, canon, norm, own_nodes
 
 EXPLANATION = (
     "Dataflow/lifetime rules over every module under rdflib/plugins/parsers (RDF Patch excluded: its blank-node "
@@ -216,9 +216,9 @@ def run(repo: Repo, rep: Report) -> None:
                 if not args:
                     rep.ob("C12.a-label-is-not-identity", mod, where, c, True, "BNode(): fresh uuid-based identity", node=c)
                     continue
-                key = (where, norm(c))
-                if key in TABLE:
-                    kind, why, fact = TABLE[key]
+                tkey = {(a, canon(b)): (a, b) for (a, b) in TABLE}.get((where, canon(c)))
+                if tkey in TABLE:
+                    kind, why, fact = TABLE[tkey]
                     used_table.add(fact)
                     rep.ob("C12.a-label-is-not-identity", mod, where, c, True, "%s (table): %s" % (kind, why), node=c)
                     continue
